@@ -95,7 +95,7 @@ Definition inline_root (sch : aschema) (tc root : string) : option string :=
   match lookup root (s_types sch) with
   | None => None
   | Some k =>
-      if (match k with KObj i => mem tc i | _ => false end) then Some tc
+      if (match k with KObj i | KIface i => mem tc i | _ => false end) then Some tc   (* /repo 568dfd8 *)
       else if String.eqb tc root then Some root else None
   end.
 
@@ -187,7 +187,9 @@ Definition related (fuel : nat) (sch : aschema) (frags : list fragdef) (cn T : s
           let ts := (ic ++ frags_on_subtype sch frags sub T)%list in
           match ts with
           | [] => Some [(cn, T)]
-          | _ => Some ((cn ++ T, T) :: map (fun ft => (cn ++ ft, ft)) (sort_uniq ts))%string
+          | _ => (* /repo 568dfd8: conditions on T's own interfaces are not variants *)
+                 Some ((cn ++ T, T) :: map (fun ft => (cn ++ ft, ft))
+                                           (sort_uniq (filter (fun c => negb (mem c (ifaces_of sch T))) ts)))%string
           end
       end
   | KUnion ms => Some (map (fun m => (cn ++ m, m)%string) ms)
